@@ -32,6 +32,7 @@ KV(k, v)  == [kind |-> "kv", k |-> k, v |-> v]
 Garbage   == [kind |-> "garbage"]
 Empty     == [kind |-> "empty"]
 Near      == [kind |-> "near"]
+BigV      == [kind |-> "bigv"]          \* "k= v=99999999999999999999": the value group takes part but is no INT literal -> NULL (a DEFAULT does not apply), k absent
 LongPre(n) == [kind |-> "longpre", n |-> n]     \* n filler bytes followed by the text of a row: a row for an unanchored pattern, noise for table variant "anch" (^...$)
 
 Asc(s) == s      \* texts are sequences of code points already
@@ -41,6 +42,7 @@ LineText(l) ==
     [] l.kind = "garbage" -> <<35, 35, 35>>
     [] l.kind = "empty" -> <<>>
     [] l.kind = "near" -> <<107, 61, 97, 32, 118, 49>>            \* "k=a v1": one character short of a match
+    [] l.kind = "bigv" -> <<107, 61, 32, 118, 61>> \o [i \in 1..20 |-> 57]
     [] l.kind = "longpre" -> [i \in 1..l.n |-> 35] \o <<107, 61, 97, 32, 118, 61, 49>>
 
 \* the row a table variant extracts: <<admitted, k, v>>
@@ -49,7 +51,7 @@ LineText(l) ==
 RowOf(tdef, l) ==
   LET k == IF l.kind = "kv" THEN l.k ELSE IF l.kind = "longpre" /\ tdef # "anch" THEN TextV(<<97>>) ELSE Null
       v0 == IF l.kind = "kv" THEN l.v ELSE IF l.kind = "longpre" /\ tdef # "anch" THEN IntV(1) ELSE Null
-      v == IF tdef = "vdef" /\ IsNull(v0) THEN IntV(7) ELSE v0
+      v == IF tdef = "vdef" /\ IsNull(v0) /\ l.kind # "bigv" THEN IntV(7) ELSE v0        \* DEFAULT: only when the group took no part
       admitted == (~IsNull(k) \/ ~IsNull(v)) /\ (tdef \in {"knn", "bothnn"} => ~IsNull(k)) /\ (tdef = "bothnn" => ~IsNull(v))
   IN <<admitted, k, v>>
 
